@@ -234,6 +234,10 @@ impl<R: Read + Seek> Mp4Reader<R> {
     }
 
     pub fn duration(&self) -> Duration {
+        if self.moov.mvhd.timescale == 0 {
+            // no time base: the duration is not expressible
+            return Duration::default();
+        }
         Duration::from_millis(self.moov.mvhd.duration * 1000 / self.moov.mvhd.timescale as u64)
     }
 
